@@ -234,13 +234,19 @@ def run_dir_history(case):
                                      D.enum('Ev', [ename, 'Zz']), D.func(single(I), 'fr', [arg(I, mname)])])])
     a, b = rev('scale', 'Aa'), rev('shift', 'Bb')
     assert len(a) == len(b)
+    # a longer revision with the same set of output files (more members in the same class)
+    longer = D.render([D.ns('gt', [D.cls('Rv', [D.ctor('Rv'), D.ctor('Rv', [arg(I, 'seed'), arg(T('double'), 'weight', '1.5')]),
+                                                D.method(single(I), 'scaleBy', [arg(I, 'x'), arg(I, 'y', '2')], 1),
+                                                D.method(single(T('string')), 'describe', [], 1), D.static(single(I), 'Count', [])]),
+                                   D.enum('Ev', ['Aa', 'Bb', 'Cc', 'Zz']), D.func(single(I), 'fr', [arg(I, 'scale'), arg(I, 'more', '3')])])])
+    assert len(longer) > len(b) + 100
     wd = gen.mkdtemp('c14d')
     viol = []
     try:
         from gtwrap.pybind_wrapper import PybindWrapper
         from gtwrap.matlab_wrapper import MatlabWrapper
         res = {}
-        for name, first in (('over-older-output', a), ('over-same-output', b), ('empty', None)):
+        for name, first in (('over-older-output', a), ('over-same-output', b), ('over-longer-output', longer), ('empty', None)):
             d = os.path.join(wd, name)
             os.makedirs(os.path.join(d, 'src'))
             os.makedirs(os.path.join(d, 'out'))
@@ -252,12 +258,44 @@ def run_dir_history(case):
                               module_template=gen.PY_TEMPLATE).wrap([src], os.path.join(d, 'out', 'rv.cpp'))
                 MatlabWrapper(module_name='rv', ignore_classes=['']).wrap([src], path=os.path.join(d, 'out', 'toolbox'))
             res[name] = gen.read_tree(os.path.join(d, 'out'))
-        for name in ('over-older-output', 'over-same-output'):
+        for name in ('over-older-output', 'over-same-output', 'over-longer-output'):
             if res[name] != res['empty']:
                 diff = [k for k in sorted(set(res[name]) | set(res['empty'])) if res[name].get(k) != res['empty'].get(k)]
                 viol.append({'sig': 'C14|previous-run|%s|%s' % (name, 'matlab' if any('toolbox' in k for k in diff) else 'pybind'),
                              'msg': 'wrapping into a location that holds the output of an earlier run (%s) gives a different result than '
                                     'wrapping into an empty one: %s' % (name, diff[:6])})
+        # two modules that share a namespace, wrapped one after the other into the same toolbox directory
+        m1 = D.render([D.ns('gt', [D.cls('One', [D.ctor('One'), D.method(single(I), 'a', [], 1)]), D.func(single(I), 'f1', [])])])
+        m2 = D.render([D.ns('gt', [D.cls('Two', [D.ctor('Two')]), D.enum('E2', ['X']), D.ns('inner', [D.cls('In2', [D.ctor('In2')])])]),
+                       D.ns('other', [D.func(single(I), 'f2', [])])])
+        trees = {}
+        for name, seq in (('both', (('m1', m1), ('m2', m2))), ('both-reversed', (('m2', m2), ('m1', m1))), ('only-m1', (('m1', m1),)), ('only-m2', (('m2', m2),))):
+            d = os.path.join(wd, 'shared-' + name)
+            os.makedirs(os.path.join(d, 'src'))
+            for mname, text in seq:
+                src = os.path.join(d, 'src', mname + '.i')
+                with open(src, 'w') as f:
+                    f.write(text)
+                MatlabWrapper(module_name=mname, ignore_classes=['']).wrap([src], path=os.path.join(d, 'toolbox'))
+            trees[name] = gen.read_tree(os.path.join(d, 'toolbox'))
+        union = dict(trees['only-m1'], **trees['only-m2'])
+        for name in ('both', 'both-reversed'):
+            if trees[name] != union:
+                diff = [k for k in sorted(set(trees[name]) | set(union)) if trees[name].get(k) != union.get(k)]
+                viol.append({'sig': 'C14|previous-run|two-modules-sharing-a-package|matlab',
+                             'msg': 'wrapping two modules that share namespace gt into one toolbox directory (%s) does not give the union of '
+                                    'their toolboxes: %s' % (name, diff[:6])})
+        # Doxygen XML regenerated between two wraps of one process: a new wrapper must see the new documentation
+        xmld = os.path.join(wd, 'xmlregen')
+        text = D.render(corpus()['docs'])
+        outs = []
+        for rev_i in (1, 2):
+            docs = {'gt::Foo': [dict(m, brief='%s (revision %d)' % (m['brief'], rev_i)) for m in XML_DOCS['gt::Foo']]}
+            c17.write_xml(xmld, docs)
+            outs.append(gen.pybind(text, xml_source=xmld))
+        if 'revision 2' not in outs[1] or 'revision 1' in outs[1]:
+            viol.append({'sig': 'C14|previous-run|xml-regenerated|pybind',
+                         'msg': 'after the Doxygen XML was regenerated, a new wrapper in the same process still embeds the old documentation'})
     finally:
         shutil.rmtree(wd, ignore_errors=True)
     return {'viol': viol}
